@@ -152,12 +152,20 @@ func ViewMatrix() *m.Design {
 		}}
 	trees := &m.UserType{Name: "TreeCollection", Var: "vtrees", Result: true, CollectionOf: "Tree", Attr: arr(m.UserRef("Tree")),
 		Views: []*m.View{{Name: "default"}, {Name: "alt"}, {Name: "rev"}, {Name: "one"}}}
+	// a result type with a single view that leaves out an attribute with a default
+	planDefault := value.Str("free")
+	plan := str()
+	plan.Default = &planDefault
+	solo := &m.UserType{Name: "Solo", Var: "vsolo", Result: true, Identifier: "application/vnd.matrix.solo",
+		Attr:  obj(fld("id", m.Prim(m.Int), true), fld("plan", plan, false), fld("note", str(), false)),
+		Views: []*m.View{{Name: "default", Fields: vf("id", "", "note", "")}}}
+	solos := &m.UserType{Name: "SoloCollection", Var: "vsolos", Result: true, CollectionOf: "Solo", Attr: arr(m.UserRef("Solo")), Views: []*m.View{{Name: "default"}}}
 	get := func(name, view string, t string) *m.Method {
 		return &m.Method{Name: name, Result: m.UserRef(t), ResultView: view, HTTP: &m.HTTPEndpoint{Routes: []m.Route{{Verb: "GET", Path: "/" + name}}}}
 	}
 	return &m.Design{API: m.API{Name: "viewmatrix", Title: "View matrix"},
-		Types:    []*m.UserType{leaf, tree, trees},
-		Services: []*m.Service{{Name: "viewmatrix", HasHTTP: true, Methods: []*m.Method{get("get", "", "Tree"), get("getalt", "alt", "Tree"), get("getrev", "rev", "Tree"), get("list", "", "TreeCollection")}}},
+		Types:    []*m.UserType{leaf, tree, trees, solo, solos},
+		Services: []*m.Service{{Name: "viewmatrix", HasHTTP: true, Methods: []*m.Method{get("get", "", "Tree"), get("getalt", "alt", "Tree"), get("getrev", "rev", "Tree"), get("list", "", "TreeCollection"), get("getsolo", "", "Solo"), get("listsolos", "", "SoloCollection")}}},
 		Features: []string{"fixed-design:view-matrix", "result-type", "views", "nested-view-override", "sibling-nested-views", "collection"}}
 }
 
